@@ -12,6 +12,7 @@ CONSTANTS
   Valences = {"neg", "pos"}
   Scores = {"none", "+10", "-5", "50%", "0.25"}
   Unscoreds = {FALSE}
+  Msgs = {"text"}
   SuppU <- SuppNone
   MaxFb = 3
   MaxSupp = 0
